@@ -67,6 +67,8 @@ type Repo interface {
 	// This must be called exactly once for every instance of [Store.RepoGet].
 	Done()
 
+	// blobCreate is the internal method for creating a blob from other store methods.
+	blobCreate(locked bool, opts ...BlobOpt) (BlobCreator, string, error)
 	// blobDelete is the internal method for deleting a blob.
 	blobDelete(d digest.Digest, locked bool) error
 	// blobGet is an internal method for accessing blobs from other store methods.
@@ -244,7 +246,7 @@ func indexIngest(repo Repo, index *types.Index, conf config.Config, locked bool)
 				return mod, fmt.Errorf("failed to marshal referrers response: %w", err)
 			}
 			dig := digest.Canonical.FromBytes(respRaw)
-			bc, _, err := repo.BlobCreate(BlobWithDigest(dig))
+			bc, _, err := repo.blobCreate(locked, BlobWithDigest(dig))
 			if err != nil {
 				return mod, err
 			}
